@@ -49,7 +49,7 @@ static struct Slot* slot(struct Table* tt, size_t i) { return &((struct Slot*)tt
 static uint64_t home_of(int64_t key, size_t n) { return cv_hash_of(key) % n; }
 
 /* ---- the representation invariant ---- */
-static int wf_rh(struct Table* tt, size_t n) {
+static int wf_rh_x(struct Table* tt, size_t n, int allow_full) {
   if (tt->nslots != n) return 0;
   if (n == 0) return tt->data == NULL && tt->nitems == 0;
   size_t cnt = 0;
@@ -68,8 +68,9 @@ static int wf_rh(struct Table* tt, size_t n) {
     }
     for (size_t k = 0; k < i; k++) if (slot(tt, k)->h != 0 && slot(tt, k)->k.val == s->k.val) return 0;   /* keys pairwise different */
   }
-  return cnt == tt->nitems && (cnt < n);
+  return cnt == tt->nitems && (cnt < n || (allow_full && cnt == n));
 }
+static int wf_rh(struct Table* tt, size_t n) { return wf_rh_x(tt, n, 0); }
 static int ledger_ok(struct Table* tt, size_t n) {      /* every stored key and value is live */
   for (size_t i = 0; i < n; i++) { struct Slot* s = slot(tt, i); if (s->h != 0 && !(s->k.tok == 1 && s->v.tok == 1)) return 0; }
   return 1;
@@ -144,7 +145,7 @@ void h_set_move(void) {
   ASSERT(gh_q == in_k || (has == old_has_q && (!has || val == old_val_q)), "[C02] set(k, v) leaves every other binding unchanged");
   /* wf without the 'one free slot' clause: the table may be full between set_move and the growth check */
   t->nitems = t->nitems; 
-  ASSERT(wf_rh(t, NS) || (t->nitems == NS), "[C02] the robin-hood invariant holds after set (keys unique, homes right, probe order)");
+  ASSERT(wf_rh_x(t, NS, 1), "[C02] the robin-hood invariant holds after set (keys unique, homes right, probe order) - the table may be full between the insertion and the growth check");
   ASSERT(ledger_ok(t, NS), "[C05] every stored key and value is live and held once");
   ASSERT(cv_issued == 2 * old_len + 2, "[C05] set constructs exactly one key and one value");
   ASSERT(cv_retired == (old_has_k ? 2 : 0), "[C05] replacing a binding finalises the old key and the old value, inserting finalises nothing");
@@ -169,7 +170,7 @@ void h_set_move_moving(void) {
   ASSERT(has && val == in_v && kt == 1 && vt == 1, "[C02][C05] the relocated binding arrives intact and live");
   has = view_has(t, NS, gh_q, &val, NULL, NULL);
   ASSERT(gh_q == in_k || (has == old_has_q && (!has || val == old_val_q)), "[C02] relocation leaves every other binding unchanged");
-  ASSERT(wf_rh(t, NS) || t->nitems == NS, "[C02] the robin-hood invariant holds after a relocation");
+  ASSERT(wf_rh_x(t, NS, 1), "[C02] the robin-hood invariant holds after a relocation");
   ASSERT(ledger_ok(t, NS), "[C05] every stored key and value is live");
   ASSERT(cv_issued == 2 * old_len + 2 && cv_retired == 0, "[C05] relocation neither constructs nor finalises (rehash, displacement)");
 }
